@@ -418,19 +418,7 @@ func checkC01(p *Prog, r *Report) {
 	}
 	// ---- R1.11 transactions are scoped to the session ---------------------------------------------------
 	r.Rule("R1.11", "The table of outstanding transactions is emptied on every path of the Restart task and of the Failed transition (directly or through a helper): a success response can only validate a pair for a check sent in the current session.", 2)
-	if rs := p.Fn("Agent.Restart$1"); r.Anchor("Restart task", rs != nil) {
-		r.Check(p.resetsOnAllPaths(rs, Loc{p.CFG(rs).Entry, 0}, "Agent.pendingBindingRequests", 2), "Restart forgets outstanding transactions", p.Pos(rs.Body.Pos()), "pendingBindingRequests reset on every path", "a path through the Restart task keeps the outstanding transactions: a late answer to a check (or nomination) of the previous session marks a pair of the new checklist Succeeded — the controlling agent reports Connected on a pair it never checked in this session and stops nominating, the peer never connects")
-	}
-	if ucs := p.Fn("Agent.updateConnectionState"); r.Anchor("Agent.updateConnectionState", ucs != nil) {
-		starts := p.branchStarts(ucs, func(ft Fact) bool {
-			return ft.Op == "==" && ft.Val && p.constName(ft.Y) == "ConnectionStateFailed"
-		})
-		ok := len(starts) > 0
-		for _, b := range starts {
-			ok = ok && p.resetsOnAllPaths(ucs, Loc{b, 0}, "Agent.pendingBindingRequests", 2)
-		}
-		r.Check(ok, "Failed forgets outstanding transactions", p.Pos(ucs.Body.Pos()), "pendingBindingRequests reset on every path of the Failed branch", "the Failed transition keeps the outstanding transactions: a late answer validates a pair of a later session")
-	}
+	checkPendingWipe(p, r)
 }
 
 func hasEq(vals map[string]string, name, c string) bool {
@@ -463,4 +451,21 @@ func fmtInt(n int) string {
 		b = append([]byte{'-'}, b...)
 	}
 	return string(b)
+}
+
+// checkPendingWipe: shared by C01 R1.11 and C03 R3.8.
+func checkPendingWipe(p *Prog, r *Report) {
+	if rs := p.Fn("Agent.Restart$1"); r.Anchor("Restart task", rs != nil) {
+		r.Check(p.resetsOnAllPaths(rs, Loc{p.CFG(rs).Entry, 0}, "Agent.pendingBindingRequests", 2), "Restart forgets outstanding transactions", p.Pos(rs.Body.Pos()), "pendingBindingRequests reset on every path", "a path through the Restart task keeps the outstanding transactions: a late answer to a check (or nomination) of the previous session marks a pair of the new checklist Succeeded — the controlling agent reports Connected on a pair it never checked in this session and stops nominating, the peer never connects")
+	}
+	if ucs := p.Fn("Agent.updateConnectionState"); r.Anchor("Agent.updateConnectionState", ucs != nil) {
+		starts := p.branchStarts(ucs, func(ft Fact) bool {
+			return ft.Op == "==" && ft.Val && p.constName(ft.Y) == "ConnectionStateFailed"
+		})
+		ok := len(starts) > 0
+		for _, b := range starts {
+			ok = ok && p.resetsOnAllPaths(ucs, Loc{b, 0}, "Agent.pendingBindingRequests", 2)
+		}
+		r.Check(ok, "Failed forgets outstanding transactions", p.Pos(ucs.Body.Pos()), "pendingBindingRequests reset on every path of the Failed branch", "the Failed transition keeps the outstanding transactions: a late answer validates a pair of a later session")
+	}
 }
